@@ -220,9 +220,12 @@ class RecorderCheck(object):
         self.n_cfg = 0
         self.pool = None
         self.driver_opts = {}
+        self.all_exhaustive = True
 
     def close(self):
         self.scratch.close()
+        # exhaustive only if *every* generating configuration of this run was enumerated completely
+        self.rep.exhaustive = bool(self.rep.exhaustive and self.all_exhaustive)
 
     # -- TLC obligations -------------------------------------------------------------------------------------
     def check(self, name, c, invariants=None, properties=None, timeout=1800, expect=None):
@@ -288,6 +291,7 @@ class RecorderCheck(object):
             if cap and len(paths) > cap:
                 rnd.shuffle(paths)
                 paths = paths[:cap]
+        self.all_exhaustive = self.all_exhaustive and exhaustive
         _log('%s: %d complete paths, replaying %d' % (name, total, len(paths)))
         self.rep.extra.setdefault('generating', []).append(
             {'config': name, 'graph_states': len(g.states), 'graph_edges': g.n_edges, 'complete_paths': total,
@@ -310,6 +314,7 @@ class RecorderCheck(object):
                                 'signature': 'tlc:%s:%s' % (name, r.violation)})
             return
         behs = [[s for _a, s in b] for b in behs]
+        self.all_exhaustive = False
         self.rep.extra.setdefault('simulated', []).append({'config': name, 'behaviours': len(behs), 'depth': depth})
         self._replay(name, c, None, behs, cassettes, n_conc, chunk)
 
